@@ -3,6 +3,7 @@ import AtreeProofs.Batch.BytesProof
 import AtreeProofs.Batch.CopyArray
 import AtreeProofs.Batch.CopyMap
 import AtreeProofs.Batch.MapContent
+import AtreeProofs.Batch.MapBuild
 /-
   C17 — Bulk build, copy and byte conversion give equivalent, valid, independent values.
   PROPERTY THEOREMS about the transcriptions in `AtreeModel/Array/Batch.lean`,
@@ -107,6 +108,79 @@ theorem batch_rejects_unsorted {r : Nat} (cfg : MCfg) (ty seed : Nat) (kvs : Lis
 theorem batch_rejects_seed0 {r : Nat} (cfg : MCfg) (ty : Nat) (kvs : List (MKey × Elem)) (c : Ctx) :
     (OMap.fromBatchData cfg ty 0 kvs c : BRes (OMap r × Ctx)) = .error (.seedUninitialized, c) :=
   fromBatchData_rejects_seed0 cfg ty kvs c
+
+/-- Without first-level digest collisions (strictly increasing first-level digests) the pair
+    sequence of the result IS the input sequence — same pairs, same order — with every value in
+    its stored form (`cs` = the storage contexts of the successive `Value.Storable` calls). -/
+theorem batch_map_content_nocollision {r : Nat} (cfg : MCfg) (ty seed : Nat) (kvs : List (MKey × Elem))
+    (c : Ctx) (hs : (kvs.map (fun p => p.1.dig 0)).Pairwise (· < ·))
+    (m : OMap r) (c' : Ctx) (h : OMap.fromBatchData cfg ty seed kvs c = .ok (m, c')) :
+    ∃ cs : List Ctx, cs.length = kvs.length ∧
+      m.toList = List.zipWith (fun p c => (p.1, storedValue cfg p.1 p.2 c)) kvs cs := by
+  obtain ⟨_, _, _, _, _, st, cf, hfill, hto⟩ := fromBatchData_ok_facts cfg ty seed kvs c m c' h
+  obtain ⟨st', cf', hfill', hpairs⟩ := fillLoop_nocollision cfg kvs hs
+    ({ id := (c.alloc cfg.addr).1, elements := MBatch.emptyElems r, slabs := [], count := 0, prevHkey := 0 } : MBatch.FillState r)
+    (c.alloc cfg.addr).2 (by intro p _; left; rfl) (by intro p _; simp)
+  rw [hfill] at hfill'
+  simp only [Except.ok.injEq, Prod.mk.injEq] at hfill'
+  obtain ⟨e1, _⟩ := hfill'
+  subst e1
+  refine ⟨appendCtxs cfg kvs
+    ({ id := (c.alloc cfg.addr).1, elements := MBatch.emptyElems r, slabs := [], count := 0, prevHkey := 0 } : MBatch.FillState r)
+    (c.alloc cfg.addr).2, appendCtxs_length cfg kvs _ _, ?_⟩
+  rw [hto, hpairs]
+  simp [fillPairs, MBatch.emptyElems, HkeyElems.toList]
+
+/-- With collisions at any level (any digest assignment `D`, keys within the key limit, plain
+    values of any size): if the build succeeds then the input keys were pairwise different, the
+    pairs of the result are exactly the input pairs with values in stored form — as a multiset; the
+    order inside a first-level collision group follows the deeper digests — and the keys of the
+    result are pairwise different. -/
+theorem batch_map_content {T r : Nat} (D : DigestFn (r + 1)) (hT : legalThreshold T = true) (cfg : MCfg)
+    (hcT : cfg.T = T) (hcL : cfg.L = r + 1) (ty seed : Nat) (kvs : List (MKey × Elem))
+    (hkv : ∀ p ∈ kvs, KeyOk T (r + 1) D p.1 ∧ ValueOkM p.2) (c : Ctx)
+    (m : OMap r) (c' : Ctx) (h : OMap.fromBatchData cfg ty seed kvs c = .ok (m, c')) :
+    KeysDistinct kvs ∧
+    (∃ cs : List Ctx, cs.length = kvs.length ∧
+      m.toList.Perm (List.zipWith (fun p c => (p.1, storedValue cfg p.1 p.2 c)) kvs cs)) ∧
+    KeysDistinct m.toList :=
+  fromBatchData_sound hT ⟨hcT, hcL⟩ ty seed kvs hkv c m c' h
+
+/-- A stream in which a key occurs twice — adjacent or not, at whatever collision level — is
+    rejected. -/
+theorem batch_rejects_duplicates {T r : Nat} (D : DigestFn (r + 1)) (hT : legalThreshold T = true)
+    (cfg : MCfg) (hcT : cfg.T = T) (hcL : cfg.L = r + 1) (ty seed : Nat) (kvs : List (MKey × Elem))
+    (hkv : ∀ p ∈ kvs, KeyOk T (r + 1) D p.1 ∧ ValueOkM p.2) (c : Ctx) (hdup : ¬ KeysDistinct kvs) :
+    ∃ e c', (OMap.fromBatchData cfg ty seed kvs c : BRes (OMap r × Ctx)) = .error (e, c') :=
+  fromBatchData_rejects_duplicates hT ⟨hcT, hcL⟩ ty seed kvs hkv c hdup
+
+/-- No spurious rejection: the element loop accepts every stream that is sorted by first-level
+    digest and has pairwise different keys. -/
+theorem batch_map_loop_accepts {T r : Nat} (D : DigestFn (r + 1)) (hT : legalThreshold T = true)
+    (cfg : MCfg) (hcT : cfg.T = T) (hcL : cfg.L = r + 1) (kvs : List (MKey × Elem))
+    (hkv : ∀ p ∈ kvs, KeyOk T (r + 1) D p.1 ∧ ValueOkM p.2)
+    (hs : (kvs.map (fun p => p.1.dig 0)).Pairwise (· ≤ ·)) (hd : KeysDistinct kvs) (id : SlabID) (c : Ctx) :
+    ∃ st c', MBatch.fillLoop cfg kvs
+      ({ id := id, elements := MBatch.emptyElems r, slabs := [], count := 0, prevHkey := 0 } : MBatch.FillState r) c
+        = .ok (st, c') := by
+  obtain ⟨st, c', h, _⟩ := fillLoop_complete (D := D) hT ⟨hcT, hcL⟩ kvs hkv hs hd id c
+  exact ⟨st, c', h⟩
+
+/-- `batch_map_inv`, PARTIAL: the result satisfies the map invariant `MapInv` when the input fits
+    one data slab (the element loop closes no data slab: `st.slabs = []` for its final state) —
+    with collision groups of any depth, inline or external.  Missing for the full statement: the
+    multi-slab case, i.e. the tail `LendToRight`-or-`Merge` step on map data slabs and the index
+    levels of `nextLevelMapSlabs` (the array counterpart is `batch_array_inv`, fully proved);
+    multi-slab maps are covered by the correspondence check (`VerifyMap` on every result) only. -/
+theorem batch_map_inv_partial {T r : Nat} (D : DigestFn (r + 1)) (hT : legalThreshold T = true)
+    (cfg : MCfg) (hcT : cfg.T = T) (hcL : cfg.L = r + 1) (ty seed : Nat) (kvs : List (MKey × Elem))
+    (hkv : ∀ p ∈ kvs, KeyOk T (r + 1) D p.1 ∧ ValueOkM p.2) (c : Ctx)
+    (m : OMap r) (c' : Ctx) (h : OMap.fromBatchData cfg ty seed kvs c = .ok (m, c'))
+    (hone : ∀ st cf, MBatch.fillLoop cfg kvs
+        ({ id := (c.alloc cfg.addr).1, elements := MBatch.emptyElems r, slabs := [], count := 0, prevHkey := 0 } : MBatch.FillState r)
+        (c.alloc cfg.addr).2 = .ok (st, cf) → st.slabs = []) :
+    MapInv T D m :=
+  fromBatchData_inv_partial hT ⟨hcT, hcL⟩ ty seed kvs hkv c m c' h hone
 
 /-! ## Copy (`CanCopyNonRefSimple` / `CopyNonRefSimple`) -/
 
